@@ -10,7 +10,7 @@ no new descriptor, empty private TMPDIR, sf_close returned 0, no sanitizer abort
 import re, struct, os
 
 from .. import formats, c03fuzz
-from ..core import Violation
+from ..core import Violation, modules_for
 
 LEAK_ENV = {"ASAN_OPTIONS": "exitcode=77:detect_leaks=1:allocator_may_return_null=1:abort_on_error=0:leak_check_at_exit=0"}
 KEEP = ("ok", "open=", "ret=", "mask=", "balance=", "it=", "err=", "len=", "size_ret=", "bad-", "calls=", "CRASH", "ABORT", "TIMEOUT")
@@ -622,7 +622,7 @@ def run(ctx):
     if getattr(ctx, "replay", None):
         return replay(ctx, ctx.replay)
     quick = ctx.tier == "quick"
-    failed = ctx.lean_stage(["SfProps.C16"])
+    failed = ctx.lean_stage(modules_for("C16"))
     ctx.run_regressions()
     known_findings(ctx)
     rng = ctx.rng
